@@ -173,6 +173,9 @@ func init() {
 		if bv.Len.IsConst() && bv.Len.Val == 0 {
 			return constStr("")
 		}
+		if cs, isC := bv.concrete(); isC && len(cs) <= 255 {
+			return constStr(bech32EncodeLiteral("panacea", []byte(cs))) // fully known bytes: real encoding
+		}
 		t, ok := bv.wholeAtom()
 		if !ok {
 			t = e.atomOfView(bv)
@@ -532,6 +535,21 @@ func (e *Exec) libPattern(fn *ssa.Function, name string, args []Value) (Value, b
 	}
 	if strings.HasPrefix(name, "(github.com/cometbft/cometbft/libs/log.") {
 		return nil, true
+	}
+	if strings.HasPrefix(name, "github.com/cosmos/cosmos-sdk/telemetry.") || strings.HasPrefix(name, "github.com/armon/go-metrics.") {
+		e.Notes["telemetry calls have empty bodies (metrics are not chain state)"] = true
+		res := fn.Signature.Results()
+		switch res.Len() {
+		case 0:
+			return nil, true
+		case 1:
+			return e.zero(res.At(0).Type()), true
+		}
+		t := make(Tuple, res.Len())
+		for i := range t {
+			t[i] = e.zero(res.At(i).Type())
+		}
+		return t, true
 	}
 	for _, pfx := range []string{"math/rand.", "(*math/rand.", "crypto/rand.", "github.com/google/uuid.", "github.com/pborman/uuid.", "os.Getenv", "os.Hostname", "os.Getpid", "runtime.NumCPU", "runtime.GOMAXPROCS"} {
 		if strings.HasPrefix(name, pfx) {
